@@ -10,9 +10,18 @@ REPO = os.environ.get("VERIF_REPO", "/repo")
 ENV = dict(os.environ, CARGO_NET_OFFLINE="true")
 
 
+def _big_stack():
+    import resource
+    try:
+        resource.setrlimit(resource.RLIMIT_STACK, (resource.RLIM_INFINITY, resource.RLIM_INFINITY))
+    except Exception:
+        pass
+
+
 def sh(cmd, cwd=None, timeout=3600, env=None):
+    # the extracted model recurses non-tail-recursively over long byte lists: give children a big stack
     p = subprocess.run(cmd, cwd=cwd, shell=isinstance(cmd, str), stdout=subprocess.PIPE,
-                       stderr=subprocess.STDOUT, timeout=timeout, env=env or ENV)
+                       stderr=subprocess.STDOUT, timeout=timeout, env=env or ENV, preexec_fn=_big_stack)
     return p.returncode, p.stdout.decode("utf-8", "replace")
 
 
